@@ -258,12 +258,17 @@ Proof.
   constructor; [|constructor; auto]. destruct Hp as (Ha & Hb). split; auto.
 Qed.
 
+Lemma notify_ok n ino p : proc_ok n ino p -> proc_ok n ino (notify p).
+Proof.
+  intros (A & B). destruct (notify_rest p) as (F & C & _). unfold proc_ok. rewrite F, C. split; auto.
+Qed.
+
 Lemma wf_exit s : wf s -> wf (fst (k_exit s)).
 Proof.
   intros Hw. unfold k_exit. destruct (k_susp s) as [|p rest] eqn:E; auto.
   destruct Hw as (H1 & H2 & H3 & H4). unfold wf, all_procs in *. rewrite E in H3.
   cbn [fst k_ino k_ofd k_cur k_susp]. split; auto. split; auto. split; auto.
-  inversion H3; auto.
+  inversion H3 as [|? ? _ Hr]; subst. inversion Hr; subst. constructor; auto. apply notify_ok; auto.
 Qed.
 
 Lemma get_ofd_ofd s fd id o : get_ofd s fd = Some (id, o) -> nth_error (k_ofd s) id = Some o.
@@ -399,7 +404,8 @@ Proof.
   - unfold k_setpgid0. cbn [fst]. apply wf_set_cur; auto.
     destruct (wf_cur s Hw) as (Ha & Hb). split; auto.
   - apply wf_kill; auto.
-  - unfold k_sigaction. destruct (negb (N.ltb sig nsig)); auto. cbn [fst]. apply wf_set_sig; auto.
+  - unfold k_sigaction. destruct (negb (N.ltb sig nsig)); auto.
+    destruct (N.eqb sig sigchld && _); auto. cbn [fst]. apply wf_set_sig; auto.
   - unfold k_getsigaction. destruct (negb (N.ltb sig nsig)); auto.
   - unfold k_raise. destruct (negb (N.ltb sig nsig)); auto.
     destruct (mem_n sig _).
@@ -407,7 +413,10 @@ Proof.
     + destruct (deliver _ sig); auto. cbn [fst]. apply wf_set_sig; auto.
   - unfold k_caught. cbn [fst]. apply wf_set_sig; auto.
   - unfold k_sigmask. destruct (negb (sigs_ok sigs) || N.ltb 2 how); auto.
-    destruct (deliver_pending _ _); auto. cbn [fst]. apply wf_set_sig; auto.
+    destruct (deliver_pending _ _); [cbn [fst]; apply wf_set_sig; auto|].
+    destruct (filter _ _) as [|sg [|sg2 l]]; auto.
+    destruct (N.eqb sg sigtstp); auto. destruct (k_susp s) eqn:E; auto. cbn [fst].
+    rewrite <- E. apply wf_reskip; auto.
   - apply wf_fork; auto.
   - apply wf_exit; auto.
 Qed.
@@ -418,7 +427,7 @@ Proof.
   destruct o; cbn [fst]; auto using wf_reskip.
   destruct d; cbn [fst]; auto using wf_reskip.
   pose proof (wf_susp s Hw) as Hs. destruct (k_susp s) as [|p rest]; auto. cbn [fst].
-  inversion Hs; subst. apply (wf_procs s p rest); auto.
+  inversion Hs; subst. apply (wf_procs s (notify p) rest); auto. apply notify_ok; auto.
 Qed.
 
 Lemma run_preserves_wf_l : forall ops s, wf s -> wf (fst (run s ops)).
@@ -600,11 +609,13 @@ Qed.
 
 (* setting the action to "ignore" discards a pending instance (POSIX) *)
 Lemma ignore_discards_pending_l s sig :
-  (sig < nsig)%N ->
+  (sig < nsig)%N -> sig <> sigchld ->
   mem_n sig (g_pend (p_sig (k_cur (fst (k_sigaction s sig DIgnore))))) = false.
 Proof.
-  intros Hs. unfold k_sigaction.
-  assert (E : negb (N.ltb sig nsig) = false) by lia. rewrite E. cbn. apply mem_remove_n.
+  intros Hs Hc. unfold k_sigaction.
+  assert (E : negb (N.ltb sig nsig) = false) by lia. rewrite E.
+  assert (E2 : N.eqb sig sigchld = false) by (apply N.eqb_neq; auto). rewrite E2.
+  cbn. apply mem_remove_n.
 Qed.
 
 (* ---- RLIMIT_NOFILE ---------------------------------------------------------------------------------- *)
@@ -646,20 +657,21 @@ Qed.
    child's exit *)
 Lemma group_kill_child_dies_l s parent rest sig :
   k_skip s = None -> k_susp s = parent :: rest ->
-  (sig < nsig)%N -> sig <> sigtstp ->
+  (sig < nsig)%N -> sig <> sigtstp -> sig <> sigchld ->
   mem_n sig (g_mask (p_sig (k_cur s))) = false ->
   get_disp (g_disp (p_sig (k_cur s))) sig = DDefault ->
   signal_ancestors (k_susp s) (snd (p_id (k_cur s))) sig = Some (k_susp s) ->
   let s1 := fst (k_kill s TGroup0 sig) in
   snd (k_kill s TGroup0 sig) = RSkip /\
   (forall o, o <> OFork -> o <> OExit -> step s1 o = (s1, RSkip)) /\
-  fst (step s1 OExit) = mkK (k_ino s) (k_ofd s) parent rest None (k_unpriv s) /\
+  fst (step s1 OExit) = mkK (k_ino s) (k_ofd s) (notify parent) rest None (k_unpriv s) /\
   snd (step s1 OExit) = RChild (CSignaled sig).
 Proof.
-  intros Hn Hsusp Hs Hst Hm Hd Ha. unfold k_kill.
+  intros Hn Hsusp Hs Hst Hch Hm Hd Ha. unfold k_kill.
   assert (E : negb (N.ltb sig nsig) = false) by lia. rewrite E, Ha.
   unfold signal_self, generate. rewrite Hd, Hm.
-  assert (E2 : N.eqb sig sigtstp = false) by (apply N.eqb_neq; auto). rewrite E2, Hsusp.
+  assert (E2 : N.eqb sig sigtstp = false) by (apply N.eqb_neq; auto).
+  assert (E3 : N.eqb sig sigchld = false) by (apply N.eqb_neq; auto). rewrite E3, E2, Hsusp.
   cbn [fst snd]. split; auto. split; [|split].
   - intros o Hf He. unfold step. cbn [k_skip]. destruct o; try congruence; reflexivity.
   - reflexivity.
@@ -725,4 +737,38 @@ Lemma open_existing_allowed_l s i a f perm data :
 Proof.
   intros Hc Hd En Hp. unfold open_existing. rewrite Hc, En, Hd, Hp, andb_false_r.
   destruct (install _ _ _) as [s' fd]. eauto.
+Qed.
+
+(* ---- SIGCHLD, death at unblock time ----------------------------------------------------------------------- *)
+
+(* the parent of a child that ends is told: a parent that catches SIGCHLD (and
+   does not block it) has it recorded, whatever process group the child was in *)
+Lemma exit_notifies_parent_l s parent rest :
+  k_susp s = parent :: rest ->
+  get_disp (g_disp (p_sig parent)) sigchld = DCatch ->
+  mem_n sigchld (g_mask (p_sig parent)) = false ->
+  mem_n sigchld (g_caught (p_sig (k_cur (fst (k_exit s))))) = true /\
+  snd (k_exit s) = RChild CExited.
+Proof.
+  intros Hs Hd Hm. unfold k_exit. rewrite Hs. cbn [fst snd k_cur]. split; auto.
+  unfold notify, generate. rewrite Hd, Hm. cbn. apply mem_insert_n.
+Qed.
+
+(* a child that unblocks a pending signal with the default (fatal) action dies
+   inside that call; at its exit the parent learns the signal and is told *)
+Lemma death_at_unblock_l s parent rest sig :
+  k_skip s = None -> k_susp s = parent :: rest ->
+  g_mask (p_sig (k_cur s)) = [sig] -> g_pend (p_sig (k_cur s)) = [sig] ->
+  get_disp (g_disp (p_sig (k_cur s))) sig = DDefault ->
+  (sig < 5)%N ->
+  let s1 := fst (k_sigmask s 1 [sig]) in
+  snd (k_sigmask s 1 [sig]) = RSkip /\
+  step s1 OExit = (mkK (k_ino s) (k_ofd s) (notify parent) rest None (k_unpriv s), RChild (CSignaled sig)).
+Proof.
+  intros Hn Hs Hmask Hpend Hd Hlt.
+  assert (Hcases : (sig = 0 \/ sig = 1 \/ sig = 2 \/ sig = 3 \/ sig = 4)%N) by lia.
+  unfold k_sigmask. rewrite Hmask, Hpend.
+  destruct Hcases as [E|[E|[E|[E|E]]]]; subst sig;
+    repeat (cbn; unfold deliver; rewrite ?Hd, ?Hs); split; try reflexivity; unfold step;
+    repeat (cbn; unfold deliver; rewrite ?Hd, ?Hs); reflexivity.
 Qed.
